@@ -72,7 +72,7 @@ cstr = obsmodel.cstr
 def per_step(k, before, call, after, st, sec):
     if call['call.outcome'] != 0: return []          # refused calls are C10's subject
     O = views(obsmodel.parse_dump(after), 'views', 'after %s' % OP_NAMES.get(call['call.op']))
-    if st is not None and st.cfg.get('start') in (4, 6):
+    if st is not None and st.cfg.get('start') in (4, 6, 9):
         # the start file has fewer labels than points (4) / ANALOG lists shorter and longer than ANALOG:USED (6) on purpose.  The 'one entry per
         # point/channel' clause is about declarations by name: it applies to the POINT lists from the first successful point declaration or
         # point column on (the library then rewrites / completes them), and to the ANALOG lists from the first channel declaration or column on
@@ -86,7 +86,7 @@ def per_step(k, before, call, after, st, sec):
     return O
 
 def jobs(tier, seed):
-    out = hist_jobs(tier, seed, finish=0)
+    out = hist_jobs(tier, seed, finish=0, extra_starts=(9,))
     for n in ((1, 2, 3) if tier == 'quick' else (1, 2, 3, 4, 5)):
         out.append({'entry': 'h_rates', 'harness': 'h_hist.cpp', 'name': 'rates', 'cfg': {'channels': n, 'steps': 2, 'free_point_rate': 0 if tier == 'quick' else 1}})
     return out
